@@ -200,9 +200,15 @@ func c15HTML(c *c15Case, variant int) (string, map[int]bool) {
 	b.WriteString("</head><body>\n")
 	for n := range c.Els {
 		el := &c.Els[n]
+		if el.Nav {
+			b.WriteString("<nav>")
+		}
 		switch el.T {
 		case "heading":
 			if el.Level > 6 {
+				if el.Nav {
+					b.WriteString("</nav>\n")
+				}
 				continue
 			}
 			fmt.Fprintf(&b, "<h%d>%s</h%d>\n", el.Level, html.EscapeString(el.W), el.Level)
@@ -213,9 +219,15 @@ func c15HTML(c *c15Case, variant int) (string, map[int]bool) {
 			c15HTMLList(el.Items, &pos, 0, &b)
 		case "table":
 			if c15Degenerate(el) {
+				if el.Nav {
+					b.WriteString("</nav>\n")
+				}
 				continue
 			}
 			c15HTMLTable(el, &b, variant)
+		}
+		if el.Nav {
+			b.WriteString("</nav>\n")
 		}
 		only[n] = true
 	}
